@@ -111,6 +111,14 @@ func (c *Ctx) provD(v ssa.Value, fr *Frame, d int) *PNode {
 					return c.provD(sts[0].Val, fr, d+1)
 				}
 			}
+			// field of a local composite with exactly one store to that field: forward the stored value
+			if fa, ok := x.X.(*ssa.FieldAddr); ok {
+				if al, ok := fa.X.(*ssa.Alloc); ok {
+					if fv := localFieldValue(al, fa.Field, 0); fv != nil {
+						return c.provD(fv, fr, d+1)
+					}
+				}
+			}
 			return &PNode{Kind: "path", Name: c.accessPath(v, fr), V: v, Fr: fr}
 		}
 		return &PNode{Kind: "unop", Name: x.Op.String(), Args: []*PNode{c.provD(x.X, fr, d+1)}, V: v, Fr: fr}
@@ -144,6 +152,8 @@ func (c *Ctx) provD(v ssa.Value, fr *Frame, d int) *PNode {
 			n.Inl = c.inlineResult(call, x.Index, fr, d)
 		}
 		return n
+	case *ssa.Lookup:
+		return &PNode{Kind: "lookup", Name: "lookup", Args: []*PNode{c.provD(x.X, fr, d+1), c.provD(x.Index, fr, d+1)}, V: v, Fr: fr}
 	case *ssa.Phi:
 		n := &PNode{Kind: "phi", Name: "phi", V: v, Fr: fr}
 		for _, e := range x.Edges {
@@ -283,4 +293,34 @@ func (p *PNode) constString() (string, bool) {
 		return constant.StringVal(p.Const), true
 	}
 	return "", false
+}
+
+// localFieldValue: the unique value stored into field #idx of a local struct variable,
+// following whole-struct copies from another local (complit temporaries).
+func localFieldValue(al *ssa.Alloc, idx int, d int) ssa.Value {
+	if d > 4 {
+		return nil
+	}
+	var vals []ssa.Value
+	if refs := al.Referrers(); refs != nil {
+		for _, rr := range *refs {
+			if fa2, ok := rr.(*ssa.FieldAddr); ok && fa2.Field == idx {
+				for _, st := range storesTo(fa2) {
+					vals = append(vals, st.Val)
+				}
+			}
+		}
+	}
+	whole := storesTo(al)
+	switch {
+	case len(vals) == 1 && len(whole) == 0:
+		return vals[0]
+	case len(vals) == 0 && len(whole) == 1:
+		if ld, ok := whole[0].Val.(*ssa.UnOp); ok {
+			if src, ok := ld.X.(*ssa.Alloc); ok {
+				return localFieldValue(src, idx, d+1)
+			}
+		}
+	}
+	return nil
 }
